@@ -58,7 +58,7 @@ import (
 func init() {
 	core.Register(&core.Monitor{
 		ID:            "C31",
-		Rule:          "(L) all 15 non-empty subsets + the empty subset of {V1,V2,V3,V4} x PRNG cost models (quick 150, thorough 5000 draws per subset; lengths 0..300; entries small / negative / +-2^63 boundary) against an independent encoder; (R) era (Alonzo..Dijkstra) x language subset the era has (witness scripts; Babbage+ also supplied by reference input) x redeemer form (list / map where decodable) x datums 0..3 x encoding (canonical / PRNG non-canonical redeemer and datum bytes) x unused Plutus reference script (none / on a reference input / on a spent input) x declared hash (correct, absent, and every applicable wrong construction: bit flipped, V1 as definite list, V1 not double wrapped, V1 key single wrapped, entries in reverse order, re-encoded redeemers / datums, datums omitted, empty datum list included, extra language, missing language, other cost model, unused reference language included) with PRNG cost models (quick 4 draws, thorough 60); plus witness field 4 present but empty in 4 encodings with redeemers present (declared: correct, absent, empty-field bytes included, bit flipped, missing language, other cost model), field 5 present but empty in 4 encodings with datums / an empty datum field / no datum field, and no-redeemer-no-datum transactions with / without a declared hash; body / witness-set map key order cycling through ascending, witness descending, body descending, both shuffled (judged in both directions); a case is non-trivial when the transaction decodes; distinct by (era, transaction id, cost-model digest)",
+		Rule:          "(L) all 15 non-empty subsets + the empty subset of {V1,V2,V3,V4} x PRNG cost models (quick 150, thorough 5000 draws per subset; lengths 0..300; entries small / negative / +-2^63 boundary) against an independent encoder; (H) history: the same cost-model slices edited in place between calls (one coefficient, another model copied over the same backing array, fresh slice of equal length; version sets in changing order V1, V2, V1, ...) through EncodeLangViews, and through the rule with the slices shared by the protocol parameters of all four eras: a hash over the old model must be rejected afterwards, one over the current model accepted; (R) era (Alonzo..Dijkstra) x language subset the era has (witness scripts; Babbage+ also supplied by reference input) x redeemer form (list / map where decodable) x datums 0..3 x encoding (canonical / PRNG non-canonical redeemer and datum bytes) x unused Plutus reference script (none / on a reference input / on a spent input) x declared hash (correct, absent, and every applicable wrong construction: bit flipped, V1 as definite list, V1 not double wrapped, V1 key single wrapped, entries in reverse order, re-encoded redeemers / datums, datums omitted, empty datum list included, extra language, missing language, other cost model, unused reference language included) with PRNG cost models (quick 4 draws, thorough 60); plus witness field 4 present but empty in 4 encodings with redeemers present (declared: correct, absent, empty-field bytes included, bit flipped, missing language, other cost model), field 5 present but empty in 4 encodings with datums / an empty datum field / no datum field, and no-redeemer-no-datum transactions with / without a declared hash; body / witness-set map key order cycling through ascending, witness descending, body descending, both shuffled (judged in both directions); a case is non-trivial when the transaction decodes; distinct by (era, transaction id, cost-model digest)",
 		MinNontrivial: 8000,
 		Assumptions: []string{
 			"the languages of a transaction are those of the Plutus scripts it executes (cardano-ledger ppViewHashesMatch: scriptsProvided restricted to scriptsNeeded); a Plutus reference script that merely sits on a reference input or on a spent UTxO is not used",
@@ -260,7 +260,157 @@ func digest(cm map[uint][]int64) string {
 
 // ---------------------------------------------------------------- (L) EncodeLangViews
 
+// runLangViewsHistory drives EncodeLangViews with cost-model slices that are
+// edited IN PLACE between calls (one coefficient changed, another model of the
+// same length copied over the same backing array) and with version sets in
+// changing order (V1, then V2, then V1 ...): every answer must be the
+// encoding of the CURRENT contents.
+func runLangViewsHistory(c *core.Ctx, co *collector) {
+	r := c.Rand("langviews-history")
+	for d := 0; d < c.N(400, 20000); d++ {
+		cm := randCostModels(r)
+		for l := uint(0); l < 4; l++ {
+			if len(cm[l]) == 0 {
+				cm[l] = []int64{int64(r.Intn(1000))}
+			}
+		}
+		sets := [][]uint{{0}, {1}, {0}, {0, 1}, {2}, {1, 2, 3}, {0, 1, 2, 3}, {3}, {0}}
+		step := 0
+		check := func(event string) {
+			for k := 0; k < 3; k++ {
+				langs := sets[(step+k)%len(sets)]
+				used := map[uint]struct{}{}
+				for _, l := range langs {
+					used[l] = struct{}{}
+				}
+				want := langViews(cm, langs, altNone)
+				got, err := common.EncodeLangViews(used, cm)
+				c.Eval()
+				c.Distinct("H", d, step, k)
+				c.Count("langviews_history_calls", 1)
+				if err == nil && bytes.Equal(got, want) {
+					continue
+				}
+				co.add(finding{key: "C31:EncodeLangViews:stale-after-" + event, weight: 1000*len(langs) + len(want),
+					what:    fmt.Sprintf("EncodeLangViews(languages %v) after %s does not encode the current contents of the cost-model slices", langs, event),
+					witness: map[string]any{"languages": langs, "event": event, "cost_models_now": cmForWitness(cm, langs), "library": core.HexFull(got), "library_error": fmt.Sprint(err), "reference": core.HexFull(want)}})
+			}
+			step++
+		}
+		check("first-use")
+		l := uint(r.Intn(4))
+		cm[l][r.Intn(len(cm[l]))] ^= 1 << uint(r.Intn(20))
+		check("one-coefficient-changed-in-place")
+		l = uint(r.Intn(4))
+		other := randCostModel(r)
+		for len(other) < len(cm[l]) {
+			other = append(other, int64(r.Intn(100000)))
+		}
+		copy(cm[l], other[:len(cm[l])])
+		check("another-model-copied-over-the-same-backing-array")
+		l = uint(r.Intn(4))
+		fresh := make([]int64, len(cm[l]))
+		for i := range fresh {
+			fresh[i] = int64(r.Intn(100000))
+		}
+		cm[l] = fresh // a new slice of equal length
+		check("model-replaced-by-a-fresh-slice-of-equal-length")
+	}
+}
+
+// runHistory is the in-place / history family of the rule: the SAME cost-model
+// slices (shared by the protocol parameters of all four eras) are edited in
+// place between validations. A transaction whose hash covers the old model
+// must be rejected afterwards, one that covers the current model accepted.
+func runHistory(c *core.Ctx, co *collector, rules map[lg.Era]common.UtxoValidationRuleFunc) {
+	r := c.Rand("rule-history")
+	for d := 0; d < c.N(60, 3000); d++ {
+		cm := randCostModels(r)
+		for l := uint(0); l < 4; l++ {
+			if len(cm[l]) == 0 {
+				cm[l] = []int64{int64(r.Intn(1000)), 7}
+			}
+		}
+		for _, e := range ruleEras {
+			rule := rules[e]
+			if rule == nil {
+				continue
+			}
+			en := e.String()
+			subs := subsets(eraLangs(e))
+			t := rcase{era: e, langs: subs[r.Intn(len(subs))], mapForm: e >= lg.Conway, nDatums: r.Intn(3), redeemers: true, unusedLang: -1, draw: d}
+			old, err := buildWith(t, r, cm)
+			if err != nil {
+				continue
+			}
+			tx, derr := old.tx.Decode()
+			if derr != nil {
+				continue
+			}
+			pp := old.params.For(e) // holds the slices of cm
+			validate := func(b *builtCase, x common.Transaction, p common.ProtocolParameters) bool {
+				return lg.Checked(e, x, b.state, func() error { return rule(x, 1000, b.state, p) }) == nil
+			}
+			judge := func(event string, b *builtCase, x common.Transaction, p common.ProtocolParameters, which string) {
+				ref := lg.Blake256(hashInput(t, b, cm, altNone)) // over the CURRENT contents
+				want := b.declared != nil && *b.declared == ref
+				got := validate(b, x, p)
+				c.Eval()
+				c.Distinct("RH", en, d, event, which)
+				c.Count("rule_history_"+event, 1)
+				if got == want {
+					if got {
+						c.Count("rule_history_accepts_"+en, 1)
+					} else {
+						c.Count("rule_history_rejects_"+en, 1)
+					}
+					return
+				}
+				wit := map[string]any{"era": en, "case": t.String(), "event": event, "transaction": which, "tx_cbor": core.HexFull(b.tx.Cbor), "declared_hash": fmt.Sprintf("%x", b.declared[:]),
+					"reference_hash_over_current_cost_models": fmt.Sprintf("%x", ref[:]), "cost_models_now": cmForWitness(cm, eraLangs(e)), "rule_accepts": got}
+				if got {
+					co.add(finding{key: "C31:" + en + ":wrong-hash-accepted:stale-cost-model-after-" + event, weight: len(b.tx.Cbor), witness: wit,
+						what: fmt.Sprintf("%s: after %s the rule still accepts the %s (its hash covers the OLD cost model; the protocol parameters hold the edited slice)", en, event, which)})
+				} else {
+					co.add(finding{key: "C31:" + en + ":converse:correct-hash-rejected:cost-model-after-" + event, weight: len(b.tx.Cbor), witness: wit,
+						what: fmt.Sprintf("%s (converse): after %s the rule rejects the %s whose hash covers the CURRENT cost model", en, event, which)})
+				}
+			}
+			judge("first-use", old, tx, pp, "transaction built for the model as first seen")
+			edits := []struct {
+				name string
+				do   func(l uint)
+			}{
+				{"one-coefficient-changed-in-place", func(l uint) { cm[l][r.Intn(len(cm[l]))] ^= 1 << uint(r.Intn(16)) }},
+				{"another-model-copied-over-the-same-backing-array", func(l uint) {
+					for i := range cm[l] {
+						cm[l][i] = int64(r.Intn(1_000_000)) - 500
+					}
+				}},
+			}
+			for _, ed := range edits {
+				ed.do(t.langs[r.Intn(len(t.langs))])
+				// the old transaction, same tx object, same and fresh parameter objects
+				judge(ed.name, old, tx, pp, "transaction built before the edit (same protocol-parameter object)")
+				judge(ed.name, old, tx, old.params.For(e), "transaction built before the edit (fresh protocol-parameter object, same slices)")
+				// a transaction built for the current contents
+				cur, err := buildWith(t, r, cm)
+				if err != nil {
+					break
+				}
+				ctx2, derr := cur.tx.Decode()
+				if derr != nil {
+					break
+				}
+				judge(ed.name, cur, ctx2, pp, "transaction built after the edit")
+				old, tx = cur, ctx2
+			}
+		}
+	}
+}
+
 func runLangViews(c *core.Ctx, co *collector) {
+	runLangViewsHistory(c, co)
 	draws := c.N(150, 5000)
 	c.Parallel("langviews", 16*draws, 0, func(i int, r *core.Rand) {
 		mask := i % 16
@@ -521,9 +671,16 @@ func canonical(n *cborx.Node) []byte {
 	return c.Encode()
 }
 
-func build(t rcase, r *core.Rand) (*builtCase, error) {
+func build(t rcase, r *core.Rand) (*builtCase, error) { return buildWith(t, r, nil) }
+
+// buildWith is build with the cost models given by the caller (the very
+// slices the protocol parameters will hand to the rule); nil = PRNG models.
+func buildWith(t rcase, r *core.Rand, given map[uint][]int64) (*builtCase, error) {
 	w := lg.NewWorld(t.era)
-	cm := randCostModels(r)
+	cm := given
+	if cm == nil {
+		cm = randCostModels(r)
+	}
 	w.Params.CostModels = cm
 	b := &builtCase{state: w.State, params: w.Params}
 	s := w.Spec.Clone()
@@ -905,6 +1062,7 @@ func run(c *core.Ctx) {
 			c.Count("bad_hash_rejected_"+en, 1)
 		}
 	})
+	runHistory(c, co, rules)
 	runFull(c, co)
 	co.flush(c)
 	for _, e := range ruleEras {
